@@ -678,37 +678,45 @@ func replayDex(in *BlockInput, c uint64, exp ledger, holdIn *big.Int, rep *Repor
 	}
 	// receipts recorded for the counter chain must be exactly what was paid
 	cl := in.Cur.Locked[c]
-	if len(execs) > 0 || (R != nil && len(R.Orders) > 0 && (len(evs) > 0 || consumed)) {
-		if !batchNonEmpty(cl) || cl.LockedHeight != in.Height || R == nil || !bytes.Equal(cl.ReceiptHash, BatchHash(R)) {
-			if swapsOK > 0 {
-				rep.bad("swap-paid-without-receipt", "chain=%d %d swaps paid out but the batch locked at this height does not carry receipts for the counter batch", c, swapsOK)
+	rotated := batchNonEmpty(cl) && cl.LockedHeight == in.Height && R != nil && bytes.Equal(cl.ReceiptHash, BatchHash(R))
+	switch {
+	case len(execs) > 0 && !rotated:
+		// the counter chain's orders were executed: the batch locked now must tell the counter chain what was paid
+		if swapsOK > 0 {
+			rep.bad("swap-paid-without-receipt", "chain=%d %d swaps paid out but the batch locked at this height does not carry receipts for the counter batch", c, swapsOK)
+		}
+	case len(execs) > 0:
+		rep.Stats["rotations_with_receipts"]++
+		if len(cl.Receipts) != len(R.Orders) {
+			rep.bad("dex-receipt-mismatch", "chain=%d %d receipts recorded for %d counter-chain orders", c, len(cl.Receipts), len(R.Orders))
+			break
+		}
+		want := map[string]int{}
+		for i, o := range R.Orders {
+			r := cl.Receipts[i]
+			rep.Executed = append(rep.Executed, DexExec{Chain: c, ID: string(o.OrderId), Addr: string(o.Address), Sold: o.AmountForSale, Receipt: r})
+			if r != 0 {
+				want[fmt.Sprintf("%x/%d/%d", o.Address, o.AmountForSale, r)]++
 			}
-		} else {
-			rep.Stats["rotations_with_receipts"]++
-			if len(cl.Receipts) != len(R.Orders) && !(len(cl.Receipts) == 0 && swapsOK == 0) {
-				rep.bad("dex-receipt-mismatch", "chain=%d %d receipts recorded for %d counter-chain orders", c, len(cl.Receipts), len(R.Orders))
-			} else {
-				want := map[string]int{}
-				for i, o := range R.Orders {
-					r := uint64(0)
-					if i < len(cl.Receipts) {
-						r = cl.Receipts[i]
-					}
-					rep.Executed = append(rep.Executed, DexExec{Chain: c, ID: string(o.OrderId), Addr: string(o.Address), Sold: o.AmountForSale, Receipt: r})
-					if r != 0 {
-						want[fmt.Sprintf("%x/%d/%d", o.Address, o.AmountForSale, r)]++
-					}
-				}
-				for _, e := range execs {
-					if e.Receipt != 0 {
-						want[fmt.Sprintf("%x/%d/%d", e.Addr, e.Sold, e.Receipt)]--
-					}
-				}
-				for k, n := range want {
-					if n != 0 {
-						rep.bad("dex-receipt-mismatch", "chain=%d receipt and payout disagree for (address/sold/bought) %s: recorded-minus-paid=%d", c, k, n)
-					}
-				}
+		}
+		for _, e := range execs {
+			if e.Receipt != 0 {
+				want[fmt.Sprintf("%x/%d/%d", e.Addr, e.Sold, e.Receipt)]--
+			}
+		}
+		for k, n := range want {
+			if n != 0 {
+				rep.bad("dex-receipt-mismatch", "chain=%d receipt and payout disagree for (address/sold/bought) %s: recorded-minus-paid=%d", c, k, n)
+			}
+		}
+	case rotated:
+		// nothing was executed in this block: receipts may only be carried over from the batch that was locked before
+		pl := in.Prev.Locked[c]
+		carried := pl != nil && bytes.Equal(pl.ReceiptHash, cl.ReceiptHash) && fmt.Sprint(pl.Receipts) == fmt.Sprint(cl.Receipts)
+		for _, r := range cl.Receipts {
+			if r != 0 && !carried {
+				rep.bad("receipt-without-payout", "chain=%d the batch locked at this height claims receipts %v for the counter batch but no swap was paid in this block", c, cl.Receipts)
+				break
 			}
 		}
 	}
